@@ -1,7 +1,68 @@
 """Narrow structural shadow predicates for known findings (see
-KNOWN_FINDINGS.txt).  match() returns the key of the known-finding pattern a
-failing case falls under, or None.  Never modified at run time."""
+KNOWN_FINDINGS.txt).  features() names the known-defect patterns a schema
+contains; match() maps a failing case to the key of a `known:` line, or None.
+Committed code; nothing here is modified at run time."""
+
+
+def _reach(env, t, seen):
+    """indices of composite types reachable from type ref t"""
+    b = env.base(t)
+    if b["k"] != "ref":
+        return
+    i = b["i"]
+    if i in seen:
+        return
+    seen.add(i)
+    d = env.d(i)
+    for m in d["ms"]:
+        _reach(env, m["t"], seen)
+    for a in d["arms"]:
+        _reach(env, a["t"], seen)
+
+
+def _contains_limited(env, t, memo):
+    """does the C++ full object of fixed type t contain a std::vector, i.e. a
+    limited array, directly or through nested fixed composites?"""
+    b = env.base(t)
+    if b["k"] != "ref":
+        return False
+    i = b["i"]
+    if i in memo:
+        return memo[i]
+    memo[i] = False
+    d = env.d(i)
+    r = any(m["f"] == "lim" or _contains_limited(env, m["t"], memo) for m in d["ms"]) or \
+        any(_contains_limited(env, a["t"], memo) for a in d["arms"])
+    memo[i] = r
+    return r
+
+
+def features(env, root, lay=None):
+    """Known-defect patterns present in the schema rooted at type index root."""
+    feats = set()
+    seen = set()
+    _reach(env, {"k": "ref", "i": root, "w": 0, "s": 0}, seen)
+    memo = {}
+    for i in seen:
+        d = env.d(i)
+        for m in d["ms"]:
+            if m["f"] == "opt" and _contains_limited(env, m["t"], memo):
+                # F-C05b: prophy::optional<T> pads by the C++ alignof(T), which is 8
+                # for any T holding a std::vector, instead of T's wire alignment
+                if lay is None or lay[env.base(m["t"])["i"] - 1]["align"] < 8:
+                    feats.add("cpp-optional-of-struct-with-limited-array")
+    return sorted(feats)
+
+
+# (property, check kind) -> features that explain a failure of that kind
+EXPLAINS = {
+    ("C03", "compat"): {"cpp-optional-of-struct-with-limited-array"},
+    ("C05", "gbs"): {"cpp-optional-of-struct-with-limited-array"},
+}
 
 
 def match(pid, fail):
+    feats = set(fail.get("features") or ())
+    for f in sorted(EXPLAINS.get((pid, fail.get("check")), set()) & feats):
+        return f
     return None
